@@ -304,6 +304,12 @@ def _rt_suffix(rng, which=None):
                                    rng.randint(0, 5) if which is None else which, rng.randint(0, 1))
 
 
+def _promoting(tree):
+    """does the query contain an operator that introduces missing values (then kinds computed above it may be float /
+    object where the declaration, inferred on fully matching stand-ins, says int / bool / float)?"""
+    return any(t.startswith(("merge|left", "merge|right", "merge|outer", "concat|")) for t in tree.split("/"))
+
+
 def fam_partitions(ctx):
     """computed partitions of the lowered (unoptimized) plan vs Meta.compT, for random run-time shapes of every node"""
     import dask
@@ -332,6 +338,8 @@ def fam_partitions(ctx):
         except Exception:  # noqa: BLE001
             not_run += 1  # declared-but-not-computable queries are the support search's business (D90)
             continue
+        if cm.has_opaque_operator(e):
+            continue  # the model knows the declared schema of an unmodelled operator only, not what its partitions look like
         rt = {nd._name: _rt_suffix(ctx.rng) for nd in e.walk()}
         offs = None
         if type(e).__name__ == "Concat" and e.axis == 0:
@@ -352,7 +360,7 @@ def fam_partitions(ctx):
         if gd != "1":
             guard_false += 1  # outside the theorem's hypothesis: nothing is claimed
             continue
-        c2, p = cm.canon(c, m, empty)
+        c2, p = cm.canon(c, m, empty, lenient=_promoting(tr))
         promoted += p
         ins.append({"query": label, "partition": j, "tree": tr})
         cs.append(c2)
@@ -550,10 +558,15 @@ def _extra_queries():
     # D35 (open) seen by C07: the rule removes an input of a column-wise concat and with it the declared promotion
     Bi = pd.DataFrame({"c": [1, 2, 3, 4], "d": [5, 6, 7, 8]}, index=pd.Index([0, 1, 2, 3], name="id"))
     qs.append(("concat_axis1_select", lambda dx_: dx_.concat([dx_.from_pandas(A, npartitions=1), dx_.from_pandas(Bi, npartitions=1)], axis=1)[["a"]]))
+    # candidate 6: the declared index name of a row-wise concat is the one of a leading RangeIndex stand-in
+    Pk = pd.DataFrame({"a": [3, 1, 2, 5], "k": [0, 1, 0, 2]})
+    Ci = pd.DataFrame({"a": [1, 2]}, index=pd.Index([7, 8], name="id"))
+    qs.append(("concat_rangeindex_standin_name", lambda dx_: dx_.concat([dx_.from_pandas(Pk, npartitions=2).set_index("k"), dx_.from_pandas(Ci, npartitions=1)])))
     return qs
 
 
 _EXTRA_SIG = {
+    "concat_rangeindex_standin_name": {"kind": "schema-concat-index-name", "cause": "rangeindex-standin"},
     "reserved_label_set_index": {"kind": "schema-reserved-label", "label": "_partitions", "op": "set_index"},
     "reserved_label_shuffle": {"kind": "schema-reserved-label", "label": "_partitions", "op": "shuffle"},
     "reserved_label_merge": {"kind": "schema-reserved-label", "label": "_partitions", "op": "merge"},
@@ -611,7 +624,7 @@ def _cases(ctx):
         "merge_left", "merge_outer_sfx", "concat", "concat_axis1", "set_index_a/id", "reset_index_keep/id", "gb_agg",
         "rename_aA/prefix/id", "filt_cnull/sum", "astype_f/id", "shift1/id", "cumsum/id", "dropna/col0", "head3/index",
         "filt_a/vc_last", "assign_z/gb_sum", "where", "two_shifts")]
-    return must + plans.seeded_slice(ctx, progs, 30 if ctx.quick else 2500)
+    return must + plans.seeded_slice(ctx, progs, 30 if ctx.quick else 1300)
 
 
 def families(ctx):
